@@ -28,12 +28,33 @@ def _class_constant(name, env, cls_name=None):
                 try: return True, evaluate(st_.value, env2)
                 except (Unsupported, Raised): return False, None
     return False, None
+import types
+def close_generators(): pass        # generators of the analysed code are Python generators of the interpreter: nothing to release
+def _own_yield(fn_):
+    r_ = getattr(fn_, "_own_yield", None)
+    if r_ is None: r_ = fn_._own_yield = _own_yield0(fn_)
+    return r_
+def _own_yield0(fn_):
+    todo = list(fn_.body)
+    while todo:
+        n_ = todo.pop()
+        if isinstance(n_, (ast.Yield, ast.YieldFrom)): return True
+        if isinstance(n_, (ast.FunctionDef, ast.Lambda, ast.ClassDef)): continue
+        todo.extend(ast.iter_child_nodes(n_))
+    return False
+def _gen_call(body, env2):
+    """a call of a generator function of the analysed code: on demand (env["__lazygen__"]: a Python generator that interprets the body
+    as far as the consumer asks, so side effects happen in the order Python gives them) or eagerly (the list of the yielded values)"""
+    if env2.get("__lazygen__"): return _exec(body, env2, 20000)
+    env2["__yield__"] = []; run_block(body, env2); return env2["__yield__"]
 def _iterate(v, env):
     """the items a for-loop / comprehension / list() sees: an interpreted instance iterates through its __iter__"""
     if isinstance(v, Inst) and env.get("__classdefs__"):
         c_, f_ = find_method(env["__classdefs__"], v[".__cls__"], "__iter__")
         if f_ is None: raise Raised("TypeError")
-        return list(call_method_of(v, c_, f_, [], {}, env))
+        r_ = call_method_of(v, c_, f_, [], {}, env)
+        return r_ if isinstance(r_, types.GeneratorType) else list(r_)
+    if isinstance(v, types.GeneratorType): return v
     return list(v)
 def _args(args, env):
     out_ = []
@@ -67,7 +88,7 @@ def evaluate(e, env):
             def _bound(*a, _h=h_, _b=base, _st=static_, **k):
                 ps_ = [x.arg for x in _h.args.args]
                 env2 = dict(env); env2["__depth__"] = env.get("__depth__", 0) + 1; env2["__global_names__"] = set()
-                if env2["__depth__"] > 12: raise Unsupported("recursion depth")
+                if env2["__depth__"] > env.get("__maxdepth__", 12): raise Unsupported("recursion depth")
                 if not _st and ps_: env2[ps_[0]] = _b; ps_ = ps_[1:]
                 dfl = dict(zip([x.arg for x in _h.args.args][len(_h.args.args) - len(_h.args.defaults):], _h.args.defaults))
                 for n_, d_ in dfl.items(): env2[n_] = evaluate(d_, env)
@@ -302,6 +323,11 @@ def evaluate(e, env):
             return [f_(x_) for x_ in it_] if e.func.id == "map" else [x_ for x_ in it_ if f_(x_)]
         if isinstance(e.func, ast.Name) and e.func.id == "next" and 1 <= len(e.args) <= 2 and not e.keywords:
             it_ = evaluate(e.args[0], env)
+            if isinstance(it_, types.GeneratorType):
+                try: return next(it_)
+                except StopIteration:
+                    if len(e.args) == 2: return evaluate(e.args[1], env)
+                    raise Raised("StopIteration")
             if not isinstance(it_, list): raise Unsupported("next() on " + type(it_).__name__)
             if it_: return it_[0]                      # generator expressions are evaluated eagerly to lists: next() takes the first element
             if len(e.args) == 2: return evaluate(e.args[1], env)
@@ -390,9 +416,7 @@ def evaluate(e, env):
             elif extra_kw: raise Unsupported("unknown keywords %s for helper %s" % (sorted(extra_kw), hn))
             missing = [x for x in params if x not in env2]
             if missing: raise Unsupported("helper %s called without %s" % (hn, missing))
-            if any(isinstance(n_, (ast.Yield, ast.YieldFrom)) for n_ in ast.walk(h)):
-                env2["__yield__"] = []                   # a generator helper is evaluated eagerly: the list of the values it yields
-                run_block(h.body, env2); return env2["__yield__"]
+            if _own_yield(h): return _gen_call(h.body, env2)        # eagerly (the list of the yielded values) unless env["__lazygen__"]
             return run_block(h.body, env2)
         # a call of a sample callable supplied by the analysis (tagged stand-in for a provider / processor object)
         try: fv = evaluate(e.func, env)
@@ -475,7 +499,7 @@ def find_method(cds, cls_name, meth, after=None):
             if isinstance(st_, ast.FunctionDef) and st_.name == meth: return n_, st_
     return None, None
 def call_method_of(inst_, cls_name, fn_, args, kw, env):
-    if env.get("__depth__", 0) > 40: raise Unsupported("recursion depth")
+    if env.get("__depth__", 0) > max(40, env.get("__maxdepth__", 40)): raise Unsupported("recursion depth")
     params = [a.arg for a in fn_.args.args]
     static_ = any(isinstance(d_, ast.Name) and d_.id == "staticmethod" for d_ in fn_.decorator_list)
     classm_ = any(isinstance(d_, ast.Name) and d_.id == "classmethod" for d_ in fn_.decorator_list)
@@ -498,8 +522,7 @@ def call_method_of(inst_, cls_name, fn_, args, kw, env):
     if fn_.args.kwarg: env2[fn_.args.kwarg.arg] = {k_: v_ for k_, v_ in kw.items() if k_ not in params}
     missing = [x for x in params if x not in env2]
     if missing: raise Unsupported("%s.%s called without %s" % (cls_name, fn_.name, missing))
-    if any(isinstance(n_, (ast.Yield, ast.YieldFrom)) for n_ in ast.walk(fn_)):
-        env2["__yield__"] = []; run_block(fn_.body, env2); return env2["__yield__"]
+    if _own_yield(fn_): return _gen_call(fn_.body, env2)
     return run_block(fn_.body, env2)
 def instantiate(cls_name, args, kw, env):
     cds = env.get("__classdefs__") or {}
@@ -555,14 +578,13 @@ class DefClosure:
         h = s.node; params = [a.arg for a in h.args.args]
         if h.args.vararg or h.args.kwarg or len(args) > len(params): raise Unsupported("call of nested function %s with star arguments" % h.name)
         env2 = dict(s.env); env2["__depth__"] = s.env.get("__depth__", 0) + 1; env2["__defenv__"] = s.env; env2["__nonlocal_names__"] = set()
-        if env2["__depth__"] > 12: raise Unsupported("recursion depth")
+        if env2["__depth__"] > s.env.get("__maxdepth__", 12): raise Unsupported("recursion depth")
         defaults = dict(zip(params[len(params) - len(h.args.defaults):], h.args.defaults))
         for name_, dflt in defaults.items(): env2[name_] = evaluate(dflt, s.env)
         env2.update(zip(params, args)); env2.update(kw)
         missing = [x for x in params if x not in env2]
         if missing: raise Unsupported("nested function %s called without %s" % (h.name, missing))
-        if any(isinstance(n_, (ast.Yield, ast.YieldFrom)) for n_ in ast.walk(h)):
-            env2["__yield__"] = []; run_block(h.body, env2); return env2["__yield__"]
+        if _own_yield(h): return _gen_call(h.body, env2)
         return run_block(h.body, env2)
 class PyFn:
     """a Python function supplied by the analysis as the meaning of a name of the analysed program (a stub for a library call or
@@ -582,6 +604,14 @@ class Raised(Exception):
 class _Return(Exception):
     def __init__(s, v): s.v = v
 def run_block(stmts, env, max_steps=2000):
+    g_ = _exec(stmts, env, max_steps)
+    try:
+        while True:
+            v_ = next(g_)
+            if "__yield__" not in env: raise Unsupported("yield outside a generator")
+            env["__yield__"].append(v_)
+    except StopIteration as e_: return e_.value
+def _exec(stmts, env, max_steps=2000):
     """interpret a block of simple statements (assignments incl. tuple unpacking, if/elif/else, for over a finite list
     or dict, return, raise, pass, docstrings) with `evaluate` for the expressions; returns the returned value (None if the
     block falls off its end).  The environment maps names and dotted attribute chains ('self.x.y') to sample values."""
@@ -634,6 +664,8 @@ def run_block(stmts, env, max_steps=2000):
                     except Unsupported: v_ = None
                     if isinstance(v_, dict) and (v_.get(".cls") or v_.get(".exc")):
                         r_ = Raised(v_.get(".cls") or v_.get(".exc")); r_.value = v_; raise r_
+                    if isinstance(v_, Inst) and env.get("__classdefs__"):           # an instance of an exception class of the analysed module
+                        r_ = Raised(v_[".__cls__"]); r_.value = v_; r_.bases = _mro(env["__classdefs__"], v_[".__cls__"]) + ["Exception"]; raise r_
                 raise Raised(c.func.id if isinstance(c, ast.Call) and isinstance(c.func, ast.Name) else ast.unparse(c) if c is not None else "re-raise")
             if isinstance(s, ast.Assign):
                 v = evaluate(s.value, env)
@@ -665,13 +697,13 @@ def run_block(stmts, env, max_steps=2000):
                 while evaluate(s.test, env):
                     steps[0] += 1
                     if steps[0] > max_steps: raise Unsupported("too many steps")
-                    try: block(s.body)
+                    try: yield from block(s.body)
                     except _Break: broke = True; break
                     except _Continue: continue
-                if not broke: block(s.orelse)
+                if not broke: yield from block(s.orelse)
                 continue
             if isinstance(s, ast.If):
-                block(s.body if evaluate(s.test, env) else s.orelse); continue
+                yield from block(s.body if evaluate(s.test, env) else s.orelse); continue
             if isinstance(s, ast.For):
                 it = evaluate(s.iter, env)
                 if isinstance(it, Inst) and env.get("__classdefs__"):
@@ -679,16 +711,16 @@ def run_block(stmts, env, max_steps=2000):
                     if f_ is None: raise Raised("TypeError")
                     it = call_method_of(it, c_, f_, [], {}, env)
                 broke = False
-                for x in list(it):
+                for x in (it if isinstance(it, types.GeneratorType) else list(it)):
                     assign(s.target, x)
-                    try: block(s.body)
+                    try: yield from block(s.body)
                     except _Break: broke = True; break
                     except _Continue: continue
-                if not broke: block(s.orelse)
+                if not broke: yield from block(s.orelse)
                 continue
             if isinstance(s, ast.Try):
                 try:
-                    try: block(s.body)
+                    try: yield from block(s.body)
                     except Raised as r:
                         def names(t):
                             if t is None: return None
@@ -702,10 +734,10 @@ def run_block(stmts, env, max_steps=2000):
                                 if getattr(r, "bound", None) is None: r.bound = _ExcSample({".cls": r.cls, ".msg": r.msg})
                                 env[h.name] = r.bound        # one sample object per raised exception: changes made by a handler stay visible
                         prev = env.get("__exc__"); env["__exc__"] = r
-                        try: block(h.body)
+                        try: yield from block(h.body)
                         finally: env["__exc__"] = prev
-                    else: block(s.orelse)
-                finally: block(s.finalbody)
+                    else: yield from block(s.orelse)
+                finally: yield from block(s.finalbody)
                 continue
             if isinstance(s, ast.Global):
                 env["__global_names__"] = set(env.get("__global_names__", ())) | set(s.names); continue
@@ -718,14 +750,14 @@ def run_block(stmts, env, max_steps=2000):
                 continue
             if isinstance(s, ast.Expr) and isinstance(s.value, ast.Call):
                 evaluate(s.value, env); continue
-            if isinstance(s, ast.Expr) and isinstance(s.value, ast.Yield) and "__yield__" in env:
-                env["__yield__"].append(evaluate(s.value.value, env) if s.value.value is not None else None); continue
-            if isinstance(s, ast.Expr) and isinstance(s.value, ast.YieldFrom) and "__yield__" in env:
-                env["__yield__"].extend(_iterate(evaluate(s.value.value, env), env)); continue
+            if isinstance(s, ast.Expr) and isinstance(s.value, ast.Yield):
+                yield (evaluate(s.value.value, env) if s.value.value is not None else None); continue
+            if isinstance(s, ast.Expr) and isinstance(s.value, ast.YieldFrom):
+                yield from _iterate(evaluate(s.value.value, env), env); continue
             if isinstance(s, ast.Break): raise _Break()
             if isinstance(s, ast.Continue): raise _Continue()
             raise Unsupported("statement " + type(s).__name__)
-    try: block(stmts)
+    try: yield from block(stmts)
     except _Return as r: return r.v
     return None
 class _Break(Exception): pass
